@@ -2,11 +2,11 @@ SPECIFICATION Spec
 CONSTANTS
   Cfg0 <- MCfg
   Types <- MTypes
-  MaxEv = 3
-  MaxAct = 6
+  MaxEv = 2
+  MaxAct = 4
   Budget = 2
   NDrv = 1
-  DrvBudget = 1
+  DrvBudget = 2
   MaxDepth = 2
   QueueCap = 0
   HardLimit = 0
